@@ -176,6 +176,14 @@ func init() {
 	noop := func(e *Engine, fn *ssa.Function, a []Value) Value { return nil }
 	reg(vp+"RegisterType", noop)
 	reg(vp+"MountStores", noop)
+	reg(vp+"ExactBigEndian", func(e *Engine, fn *ssa.Function, a []Value) Value {
+		e.exactBE = a[0].(*T).IsTrue()
+		return nil
+	})
+	reg(vp+"CollisionFree", func(e *Engine, fn *ssa.Function, a []Value) Value {
+		e.collisionFree = a[0].(*T).IsTrue()
+		return nil
+	})
 	reg(vp+"Note", func(e *Engine, fn *ssa.Function, a []Value) Value {
 		e.note(constStr(a[0], "note"))
 		return nil
